@@ -46,7 +46,7 @@ Section Facts.
   Definition finalize (fmt : bytes) : bytes + bytes :=
     if o_skip_imports o
     then match parses fmt with None => inl fmt | Some m => inr m end
-    else process fmt.
+    else checked parses (process fmt).
 
   (* [solo], case by case *)
   Lemma solo_unreadable i t m : t_read t = inr m ->
